@@ -266,3 +266,37 @@ func SPKIParseStrict(data []byte) (*Pt, []byte, bool) {
 	}
 	return p, pt, true
 }
+
+// DERParseSigStrictNoRange is DERParseSigStrict without the range
+// condition on r and s (used only to classify rejections).
+func DERParseSigStrictNoRange(data []byte) (r, s *big.Int, ok bool) {
+	tag, seq, rest, ok1 := readTLVStrict(data)
+	if !ok1 || tag != 0x30 || len(rest) != 0 {
+		return nil, nil, false
+	}
+	t1, c1, rest1, ok1 := readTLVStrict(seq)
+	if !ok1 || t1 != 0x02 {
+		return nil, nil, false
+	}
+	t2, c2, rest2, ok2 := readTLVStrict(rest1)
+	if !ok2 || t2 != 0x02 || len(rest2) != 0 {
+		return nil, nil, false
+	}
+	r, okr := derUintStrict(c1)
+	s, oks := derUintStrict(c2)
+	return r, s, okr && oks
+}
+
+// LenientSPKIBitString returns the BIT STRING TLV content of a
+// SubjectPublicKeyInfo-shaped input using a tolerant reader.
+func LenientSPKIBitString(data []byte) (tag byte, content, rest []byte, ok bool) {
+	_, outer, _, ok1 := lenientTLV(data)
+	if !ok1 {
+		return
+	}
+	_, _, after, ok2 := lenientTLV(outer)
+	if !ok2 {
+		return
+	}
+	return lenientTLV(after)
+}
